@@ -155,6 +155,12 @@ theorem evalSpline1D_eq_dot (t : ℕ → K) (nk p : ℕ) (c : ℕ → K) (x : K)
   rw [hs, Option.map_some, dotFrom_eq_sum]
   rw [basisOrDer_length]
 
+example (c : ℕ → ℚ) : evalSpline1D exKnots 8 2 c (7/2 : ℚ) true = some (((List.range (2 + 1)).map
+    (fun j => c (3 - 2 + j) * (basisOrDer exKnots 2 (7/2) 3 true).getD j 0)).sum) :=
+  evalSpline1D_eq_dot exKnots 8 2 c (7/2) true 3
+    (findSpan_unique exKnots exKnots_mono 8 2 (7/2) (by norm_num [exKnots]) (by norm_num [exKnots])
+      (by norm_num [exKnots]) 3 (by norm_num [exKnots]) (by norm_num [exKnots]))
+
 /-- **the evaluated value is the B-spline** `Σ_{i<nb} c_i·N_{i,p}(x)` (all `nb = nk-p-1` basis functions) for every
     `x` of the half-open domain `[t_p, t_{nk-1-p})`, knots included.  Interior knots may be repeated; only the first
     cell must be non-empty (`t_p < t_{p+1}`, an assumption of A2.1: `make_knots` asserts strictly increasing breaks). -/
@@ -204,6 +210,7 @@ theorem evalSpline1D_right_end (t : ℕ → K) (ht : Monotone t) (nk p : ℕ) (c
 example (c : ℕ → ℚ) : evalSpline1D exKnots 8 2 c (exKnots (8 - 1 - 2)) false
     = some (((List.range (8 - 1 - 2)).map (fun i => c i * Nleft exKnots 2 i (exKnots (8 - 1 - 2)))).sum) :=
   evalSpline1D_right_end exKnots exKnots_mono 8 2 c (by norm_num [exKnots]) (by norm_num [exKnots])
+
 /-! ## 4. the 2-D entry point is the tensor product, for all four `(der1, der2)` -/
 
 /-- `nu_eval_spline_2d_scalar`, from the definitions: `Σ_i (Σ_j c[s1-d1+i, s2-d2+j]·B2[j])·B1[i]`, where `B1`/`B2` are
@@ -305,7 +312,7 @@ theorem cubic_eq_general (xmin dx : K) (hdx : dx ≠ 0) (span : ℕ) (hs : 3 ≤
       (by rw [hl2]; push_cast; ring) (by rw [hr0]; push_cast; ring) (by rw [hr1]; push_cast; ring)
       (by rw [hr2]; push_cast; ring)]
   · unfold basisFunsDer basisFuns
-    simp only [Nat.add_one_sub_one, Nat.reduceAdd, Nat.reduceSub]
+    simp only [Nat.add_one_sub_one, Nat.reduceAdd]
     rw [levels_uniform2 _ _ o dx hdx (by rw [hl0]; push_cast; ring) (by rw [hl1]; push_cast; ring)
       (by rw [hr0]; push_cast; ring) (by rw [hr1]; push_cast; ring)]
     have hr4 : List.range 4 = [0, 1, 2, 3] := by decide
@@ -379,6 +386,11 @@ theorem cuFindSpan_correct (trunc : K → ℤ) (htr : ∀ q : K, 0 ≤ q → ((t
 example : cuBasisFuns (((5/4 : ℚ) - 0) / (1/2) - (((5 : ℕ) : ℚ) - 3)) = basisFuns (uniformKnots 0 (1/2)) 3 (5/4) 5 :=
   (cubic_eq_general (0 : ℚ) (1/2) (by norm_num) 5 (by norm_num) (5/4)).1
 
+example : ∃ s : ℕ, (cuFindSpan exTrunc (0 : ℚ) (1/2) 2 ((4 : ℕ) : ℤ)).1 = (s : ℤ) ∧ 3 ≤ s ∧ s ≤ 4 + 2 := by
+  obtain ⟨s, h1, h2, h3, _⟩ := cuFindSpan_correct exTrunc exTrunc_spec 0 (1/2) 2 (by norm_num) 4 (by norm_num)
+    (by norm_num) (by norm_num)
+  exact ⟨s, h1, h2, h3⟩
+
 /-- the general span search on the uniform knot vector picks the cell that `cu_find_span` picks -/
 theorem cubic_same_cell (trunc : K → ℤ) (htr : ∀ q : K, 0 ≤ q → ((trunc q : ℤ) : K) ≤ q ∧ q < ((trunc q : ℤ) : K) + 1)
     (xmin dx x : K) (hdx : 0 < dx) (ncells : ℕ) (hn : 1 ≤ ncells) (hx1 : xmin ≤ x) (hx2 : x ≤ xmin + (ncells : K) * dx) :
@@ -422,6 +434,10 @@ theorem cubic_same_cell (trunc : K → ℤ) (htr : ∀ q : K, 0 ≤ q → ((trun
       exact absurd h7 (not_le.mpr (lt_of_eq_of_lt heq.symm this))
     omega
 
+example : ∃ s : ℕ, (cuFindSpan exTrunc (0 : ℚ) (1/2) (5/4) ((4 : ℕ) : ℤ)).1 = (s : ℤ) ∧ 3 ≤ s ∧
+    findSpan (uniformKnots (0 : ℚ) (1/2)) (4 + 7) 3 (5/4) = some s :=
+  cubic_same_cell exTrunc exTrunc_spec 0 (1/2) (5/4) (by norm_num) 4 (by norm_num) (by norm_num) (by norm_num)
+
 /-- what the cubic path feeds to the accumulation loops is what the general path computes on the uniform knots -/
 theorem cubic_span_basis (trunc : K → ℤ) (htr : ∀ q : K, 0 ≤ q → ((trunc q : ℤ) : K) ≤ q ∧ q < ((trunc q : ℤ) : K) + 1)
     (xmin dx x : K) (hdx : 0 < dx) (ncells : ℕ) (hn : 1 ≤ ncells) (hx1 : xmin ≤ x) (hx2 : x ≤ xmin + (ncells : K) * dx) :
@@ -441,6 +457,10 @@ theorem cubic_span_basis (trunc : K → ℤ) (htr : ∀ q : K, 0 ≤ q → ((tru
   · simp only [cuBasisOrDer, basisOrDer, Bool.false_eq_true, if_false]; exact e1
   · simp only [cuBasisOrDer, basisOrDer, if_true]; exact e2
 
+example := cubic_span_basis exTrunc exTrunc_spec 0 (1/2) (5/4) (by norm_num) 4 (by norm_num) (by norm_num) (by norm_num)
+
+/-- **the uniform-cubic fast path and the general path give the same function** (value and first derivative) on the whole
+    closed domain `[xmin, xmin + ncells·dx]`, right end point included -/
 theorem cubic_path_eq_general_path (trunc : K → ℤ)
     (htr : ∀ q : K, 0 ≤ q → ((trunc q : ℤ) : K) ≤ q ∧ q < ((trunc q : ℤ) : K) + 1)
     (xmin dx x : K) (hdx : 0 < dx) (ncells : ℕ) (hn : 1 ≤ ncells) (hx1 : xmin ≤ x) (hx2 : x ≤ xmin + (ncells : K) * dx)
@@ -453,6 +473,7 @@ theorem cubic_path_eq_general_path (trunc : K → ℤ)
   simp only
   rw [hidx, hb der]
 
+/-- the same for the 2-D scalar kernels, all four `(der1, der2)` -/
 theorem cubic_path_eq_general_path_2d (trunc : K → ℤ)
     (htr : ∀ q : K, 0 ≤ q → ((trunc q : ℤ) : K) ≤ q ∧ q < ((trunc q : ℤ) : K) + 1)
     (xmin dx x : K) (hdx : 0 < dx) (ncx : ℕ) (hnx : 1 ≤ ncx) (hx1 : xmin ≤ x) (hx2 : x ≤ xmin + (ncx : K) * dx)
@@ -470,6 +491,11 @@ theorem cubic_path_eq_general_path_2d (trunc : K → ℤ)
 example (c : ℕ → ℚ) (der : Bool) : evalSpline1D (uniformKnots (0 : ℚ) (1/2)) (4 + 7) 3 c 2 der
     = some (cuEvalSpline1D exTrunc 0 (1/2) ((4 : ℕ) : ℤ) c 2 der) :=
   cubic_path_eq_general_path exTrunc exTrunc_spec 0 (1/2) 2 (by norm_num) 4 (by norm_num) (by norm_num) (by norm_num) c der
+
+example (c : ℕ → ℕ → ℚ) : evalSpline2D (uniformKnots (0 : ℚ) (1/2)) (4 + 7) 3 (uniformKnots (1 : ℚ) 2) (3 + 7) 3 c 2 7 true true
+    = some (cuEvalSpline2D exTrunc 0 (1/2) ((4 : ℕ) : ℤ) 1 2 ((3 : ℕ) : ℤ) c 2 7 true true) :=
+  cubic_path_eq_general_path_2d exTrunc exTrunc_spec 0 (1/2) 2 (by norm_num) 4 (by norm_num) (by norm_num) (by norm_num)
+    1 2 7 (by norm_num) 3 (by norm_num) (by norm_num) (by norm_num) c true true
 
 /-! ## 6. the derivative entry points return the derivative of the cell polynomial -/
 
@@ -518,6 +544,7 @@ theorem evalSpline1D_der_is_derivative (t : ℕ → K) (ht : Monotone t) (nk p :
 example (c : ℕ → ℚ) : ∃ q : ℚ[X], ∀ x, findSpan exKnots 8 2 x = some 3 →
     evalSpline1D exKnots 8 2 c x false = some (q.eval x) ∧ evalSpline1D exKnots 8 2 c x true = some ((derivative q).eval x) :=
   evalSpline1D_der_is_derivative exKnots exKnots_mono 8 2 c 3 (by norm_num [exKnots])
+
 /-! ## 7. periodic splines: both ends of the period -/
 
 /-- translation invariance: evaluating (value or first derivative) in cell `span+n` at `x+L` with coefficients periodic
@@ -543,6 +570,7 @@ example (c : ℕ → ℚ) (hc : ∀ j, j ≤ 2 → c (3 - 2 + j + 4) = c (3 - 2 
     dotFrom c (3 + 4 - 2) (basisOrDer exKnots 2 (7/2 + 4) (3 + 4) true)
       = dotFrom c (3 - 2) (basisOrDer exKnots 2 (7/2) 3 true) :=
   periodic_shift exKnots 4 4 (fun i => by simp [exKnots]) 2 3 (by norm_num) c hc (7/2) true
+
 /-- **periodic splines take equal values (degree ≥ 1) and equal slopes (degree ≥ 2) at both ends of the period**:
     knots with `t_{i+n} = t_i + L` (as built by `make_knots`), `nk = n + 2p + 1`, coefficients wrapped
     `c_{n+i} = c_i` for `i < p` (the convention `coeffs[n:n+p] = coeffs[0:p]` of the code base) -/
